@@ -164,8 +164,35 @@ def _run_variant(args):
         return (v.name, v.kind, "ok", "silent")
 
 
+_D = "nrel/hive/"
+# first-order faults that survived the unedited suite AND every check in the mutation sweep (tools/mutation_sweep.py) before the rule
+# named here was added: kept as permanent break variants of the property whose clause they violate
+SWEEP = {
+    "C12": [("sweep-base-guard-or", _D + "dispatcher/instruction_generator/dispatcher.py", "isinstance(vehicle.vehicle_state, ChargingBase)\n                    and range_remaining_km",
+             "isinstance(vehicle.vehicle_state, ChargingBase)\n                    or range_remaining_km", "GD.eligible")],
+    "C18": [("sweep-queue-handover-flipped", _D + "state/vehicle_state/charge_queueing.py", "        elif not has_available_charger:\n            return (\n                SimulationStateError(f\"no charger is available",
+             "        elif has_available_charger:\n            return (\n                SimulationStateError(f\"no charger is available", "GD.queue-hand-over")],
+    "C03": [("sweep-oos-test-flipped", _D + "state/vehicle_state/servicing_trip.py", "        elif moved_vehicle.vehicle_state.vehicle_state_type == VehicleStateType.OUT_OF_SERVICE:\n            return None, move_sim",
+             "        elif moved_vehicle.vehicle_state.vehicle_state_type != VehicleStateType.OUT_OF_SERVICE:\n            return None, move_sim", "DU.provenance"),
+            ("sweep-exit-refusal-untested", _D + "state/entity_state/entity_state_ops.py", "    elif not exit_sim:\n        return None, None", "    elif not sim:\n        return None, None", "TS.transition")],
+    "C09": [("sweep-exit-refusal-untested", _D + "state/entity_state/entity_state_ops.py", "    elif not exit_sim:\n        return None, None", "    elif not sim:\n        return None, None", "TS.transition")],
+    "C13": [("sweep-same-position-test-flipped", _D + "model/roadnetwork/osm/osm_roadnetwork.py", "        if origin == destination:\n            return empty_route()",
+             "        if origin != destination:\n            return empty_route()", "DU.route"),
+            ("sweep-inner-none-flipped", _D + "model/roadnetwork/osm/osm_roadnetwork.py", "            elif inner_link_path is None:\n                return empty_route()",
+             "            elif inner_link_path is not None:\n                return empty_route()", "DU.route")],
+    "C20": [("sweep-driver-step-flipped", _D + "state/simulation_state/update/step_simulation_ops.py", "        elif not updated_sim:\n            return simulation_state\n        else:\n            return updated_sim",
+             "        elif updated_sim:\n            return simulation_state\n        else:\n            return updated_sim", "DU.driver-commit")],
+    "C02": [("sweep-stall-test-ge", _D + "model/base.py", "return bool(self.available_stalls > 0) and", "return bool(self.available_stalls >= 0) and", "CMP.bounded-counter")],
+    "C06": [("sweep-stall-test-ge", _D + "model/base.py", "return bool(self.available_stalls > 0) and", "return bool(self.available_stalls >= 0) and", "CMP.bounded-counter")],
+}
+
+
+def sweep_variants(prop: str) -> List[V]:
+    return [V(n, f, o, nw, rule=r) for n, f, o, nw, r in SWEEP.get(prop, [])]
+
+
 def run_selftest(prop: str, mod, base_ctx: Ctx, jobs: int = None, only: Optional[List[str]] = None) -> dict:
-    variants: List[V] = list(getattr(mod, "selftest")()) + regression_variants(prop) + seed_variants(prop) + neutral_variants(prop)
+    variants: List[V] = list(getattr(mod, "selftest")()) + sweep_variants(prop) + regression_variants(prop) + seed_variants(prop) + neutral_variants(prop)
     if only:
         variants = [v for v in variants if v.name in only]
     base_keys = _viol_keys(base_ctx)
